@@ -160,6 +160,54 @@ pub fn run(ctx: &Ctx, rec: &mut Rec) {
             judge(ctx, rec, P, "hash_to_curve", got, &want, json!({"a": hexs(&a), "b": hexs(&bb)}));
         }
     });
+    // engineered radicands: inputs whose inner value num*den (or its inverse, which is what reaches the square
+    // root) is a structured value (zero / all-ones low limbs, 2-adic relations with q), and pairs of inputs
+    // r2 != +-r1 that *share* their radicand (the cubic in r has up to three roots) although their images differ
+    rec.declare_class("engineered-radicand");
+    rec.declare_class("shared-radicand pair");
+    par(rec, |w, n, rec| {
+        let mut rng = rng_for(ctx.seed, P, w, 9);
+        let targets = crate::eng::intermediate_targets(&f.p);
+        for (ti, tg) in targets.iter().enumerate() {
+            if ti % n != w || (ti / n) % ctx.scale(3, 1) != 0 {
+                continue;
+            }
+            for x in [tg.clone(), f.inv(tg).unwrap_or(b(1))] {
+                for r0 in crate::eng::elligator_r0_for_radicand(ctx, &x, &mut rng).into_iter().take(2) {
+                    let Some((want, _)) = c.elligator_spec(&r0) else { continue };
+                    rec.class("engineered-radicand");
+                    rec.form("encode_to_curve");
+                    rec.eval(&("eng-radicand", r0.to_bytes_le()), false);
+                    let lr = fq(&r0);
+                    let got = guarded(|| El::encode_to_curve(&lr));
+                    judge(ctx, rec, P, "encode_to_curve", got, &want, json!({"r0": hexs(&r0), "class": "engineered radicand"}));
+                }
+            }
+        }
+        let reps = ctx.scale(120, 3000);
+        for rep in 0..reps {
+            if rep % n != w {
+                continue;
+            }
+            let r1 = crate::zoo::rand_below(&mut rng, &f.p);
+            let x = crate::eng::elligator_radicand(ctx, &r1);
+            let (Some((m1, _)), partners) = (c.elligator_spec(&r1), crate::eng::elligator_r0_for_radicand(ctx, &x, &mut rng)) else { continue };
+            for r2 in partners {
+                if r2 == r1 || r2 == f.neg(&r1) {
+                    continue;
+                }
+                let Some((m2, _)) = c.elligator_spec(&r2) else { continue };
+                rec.class("shared-radicand pair");
+                for (x1, x2, want) in [(&r1, &r2, c.add(&m1, &m2)), (&r2, &r1, c.add(&m2, &m1))] {
+                    rec.form("hash_to_curve");
+                    rec.eval(&("shared-radicand", x1.to_bytes_le(), x2.to_bytes_le()), false);
+                    let (la, lb) = (fq(x1), fq(x2));
+                    let got = guarded(|| El::hash_to_curve(&la, &lb));
+                    judge(ctx, rec, P, "hash_to_curve", got, &want, json!({"a": hexs(x1), "b": hexs(x2), "class": "inputs sharing their radicand"}));
+                }
+            }
+        }
+    });
     // Elligator collisions: distinct inputs (r2 != +-r1) with the same image, and inputs whose images
     // are opposite: hash_to_curve must give 2P resp. the identity. The preimage sets are computed in the
     // model by inverting the map (up to 8 preimages per element).
